@@ -242,7 +242,10 @@ class Controller:
                     break
                 (pdir / f'job{k}' / 'ack').touch()
             else:
-                self.proc.wait(timeout=60)
+                try:
+                    self.proc.wait(timeout=30)
+                except subprocess.TimeoutExpired:
+                    pass        # every job has reported; whatever keeps the interpreter from exiting is killed by cleanup()
         finally:
             self.cleanup()
         return done
